@@ -58,6 +58,13 @@ CHECKS = {
         "grids (sub-pixel offsets, pixel size, orientation, CRS) must be rejected with ValueError; snap perturbations straddle half a pixel; enclosing regions lie on the quarter-pixel lattice in the "
         "same and in an exact-translation CRS; BoundingBox lattice laws are evaluated on logged results for all triples of a window.",
    ref="5/C16", note=TB + "enclosing regions whose edges coincide with pixel edges are not generated (floating-point floor/ceil there is not constrained by the statement); exact tmerc CRS family for the cross-CRS part"),
+ "C14": dict(
+   technique="TLA+ model of 1-d binning / tile placement (GridSpec) checked by TLC; complete tile tables, point lookups, box/polygon queries, sample-tile reconstruction and web tiles of the real GridSpec validated by TLC (exact separating-axis overlap for polygons)",
+   text="TLC checks that the binning model tiles the plane (disjoint interiors, shared edges, half-open point lookup, geobox footprint = bin rectangle) for every grid spec of the family and emits "
+        "specs, queries and sample-tile cases. The real GridSpec is queried completely over an index window (both lookup routes), with dense point lookups, bounding-box queries at half-tile positions "
+        "with quarter-unit jitter on both sides of tile edges, convex lattice polygons in the same and an exact-translation CRS, reconstruction from sample tiles and web tiles z<=5; TLC evaluates the "
+        "partition / lookup / exact-query / reconstruction predicates on the logged footprints (integer quarter-unit lattice, exact) and compares tables with the model.",
+   ref="5/C14", note=TB + "zero-area contacts between a polygon query and a tile are neither required nor forbidden; cross-CRS queries use the exact tmerc family"),
 }
 
 NOT_YET = "check not built yet (work in progress); see DESIGN.md"
